@@ -9,6 +9,8 @@ import (
 	"net/http"
 	"net/http/httptest"
 	"net/url"
+	"os"
+	"path/filepath"
 	"time"
 
 	"github.com/fullstorydev/grpchan"
@@ -56,6 +58,7 @@ type carrierOpt struct {
 	register  func(reg grpc.ServiceRegistrar) // extra registrations
 	basePath  string
 	tls       bool
+	unix      bool // serve on a unix-domain socket instead of loopback TCP
 	// decorate registers the scripted service through grpchan.WithInterceptor with pass-through interceptors
 	decorate bool
 }
@@ -120,7 +123,7 @@ func NewHTTPServer(svc *Service, o carrierOpt) *Carrier {
 	if o.register != nil {
 		o.register(s)
 	}
-	return httpCarrier("http-server", svc, s, base, o.tls)
+	return httpCarrier("http-server", svc, s, base, o.tls, o.unix)
 }
 
 // NewHTTPMux: the bulk-registration helper on a ServeMux.
@@ -136,14 +139,29 @@ func NewHTTPMux(svc *Service, o carrierOpt) *Carrier {
 	}
 	mux := http.NewServeMux()
 	httpgrpc.HandleServices(mux.HandleFunc, base, reg, o.unaryInt, o.streamInt)
-	return httpCarrier("http-mux", svc, mux, base, o.tls)
+	return httpCarrier("http-mux", svc, mux, base, o.tls, o.unix)
 }
 
-func httpCarrier(name string, svc *Service, h http.Handler, base string, useTLS bool) *Carrier {
+func httpCarrier(name string, svc *Service, h http.Handler, base string, useTLS, unix bool) *Carrier {
 	var ts *httptest.Server
 	tr := newHTTPTransport()
 	ts = httptest.NewUnstartedServer(h)
 	ts.Config.ErrorLog = log.New(io.Discard, "", 0)
+	sockDir := ""
+	if unix {
+		d, err := os.MkdirTemp("", "vsock")
+		if err != nil {
+			panic(err)
+		}
+		sockDir = d
+		l, err := net.Listen("unix", filepath.Join(d, "s"))
+		if err != nil {
+			panic(err)
+		}
+		ts.Listener.Close()
+		ts.Listener = l
+		name += "-unix"
+	}
 	if useTLS {
 		ts.StartTLS()
 		tr = ts.Client().Transport.(*http.Transport)
@@ -151,10 +169,28 @@ func httpCarrier(name string, svc *Service, h http.Handler, base string, useTLS 
 		ts.Start()
 	}
 	u, _ := url.Parse(ts.URL)
+	if unix {
+		sock := filepath.Join(sockDir, "s")
+		tr.DialContext = func(ctx context.Context, _, _ string) (net.Conn, error) {
+			return (&net.Dialer{}).DialContext(ctx, "unix", sock)
+		}
+		scheme := "http"
+		if useTLS {
+			scheme = "https"
+		}
+		u = &url.URL{Scheme: scheme, Host: "127.0.0.1"}
+	}
 	u.Path = base
 	c := &Carrier{Name: name, HTTP: true, Svc: svc, URL: u, Transport: tr}
 	c.CC = &httpgrpc.Channel{Transport: tr, BaseURL: u}
-	c.close = append(c.close, func() { tr.CloseIdleConnections(); ts.CloseClientConnections(); ts.Close() })
+	c.close = append(c.close, func() {
+		tr.CloseIdleConnections()
+		ts.CloseClientConnections()
+		ts.Close()
+		if sockDir != "" {
+			os.RemoveAll(sockDir)
+		}
+	})
 	return c
 }
 
